@@ -20,6 +20,26 @@ class Oblig:
         self.defs = []
 
 
+_QCACHE = {}
+
+
+def _has_quant(f):
+    k = f.get_id()
+    r = _QCACHE.get(k)
+    if r is None:
+        seen = set()
+
+        def walk(e):
+            if e.get_id() in seen:
+                return False
+            seen.add(e.get_id())
+            if z3.is_quantifier(e):
+                return True
+            return any(walk(c) for c in e.children())
+        r = _QCACHE[k] = (k, f, walk(f))       # keep f alive: ids are reused after garbage collection
+    return r[2]
+
+
 class Ctx:
     """State of the symbolic execution of ONE task (a function under a contract); paths are explored by
     re-executing with a decision prefix."""
@@ -162,15 +182,33 @@ class Ctx:
         t = time.time()
         s = z3.Solver()
         s.set("timeout", self.feas_timeout_ms if not full else 10000)
-        s.add(*self.assumptions)
-        s.add(*self.pc)
-        s.add(*extra)
         if full:
+            s.add(*self.assumptions)
+            s.add(*self.pc)
             s.add(*self.defs)
+        else:
+            # quantified facts are left out as well (satisfiability with quantifiers mostly ends in 'unknown' after
+            # the whole budget): still an over-approximation
+            s.add(*[f for f in self.assumptions if not _has_quant(f)])
+            s.add(*[f for f in self.pc if not _has_quant(f)])
+        s.add(*extra)
         r = s.check()
         self.solver_s += time.time() - t
         self.n_feas += 1
         return r
+
+    def entails(self, f, timeout_ms=2000):
+        """True when the path condition (with the definitions of named products) proves f; False = not known"""
+        t = time.time()
+        s = z3.Solver()
+        s.set("timeout", timeout_ms)
+        s.add(*self.assumptions)
+        s.add(*self.pc)
+        s.add(*self.defs)
+        s.add(z3.Not(to_z3(f)))
+        r = s.check()
+        self.solver_s += time.time() - t
+        return r == z3.unsat
 
     def path_infeasible(self):
         return self._check([], full=True) == z3.unsat
@@ -257,13 +295,8 @@ class Ctx:
             formula = z3.BoolVal(True)
         if formula is False:
             formula = z3.BoolVal(False)
-        if split and is_z3(formula):
-            parts = self._conjuncts(formula)
-            if len(parts) > 1:
-                last = None
-                for p_ in parts:
-                    last = self.oblige(name, p_, kind, note, split=False)
-                return last
+        # (conjunctive goals are first tried whole and split by the discharger only when that stays undecided:
+        #  neither form is uniformly easier for the solvers)
         o = Oblig(name, kind, formula, self.assumptions + self.pc, self.cur_lineno, list(self.trace), note)
         o.defs = list(self.defs)
         self.obligs.append(o)
